@@ -744,7 +744,8 @@ func safeResolve(b arrow.RecordBatch, md arrow.Metadata, cfg *vgirpc.ExternalLoc
 
 type bodies struct {
 	plain map[int][]byte    // by bsz
-	zstd  map[[2]int][]byte // by (bsz, dsz)
+	zstd  map[[2]int][]byte // by (bsz, dsz): one frame
+	multi map[string][]byte // by framing + dsz: several concatenated frames, encoded size cap-1
 }
 
 func (s *stepper) call(st replay.Step) (replay.Obs, error) {
@@ -783,6 +784,39 @@ func (s *stepper) call(st replay.Step) (replay.Obs, error) {
 				return nil, fmt.Errorf("compressed payload (%d) too close to the cap (%d) to pad", len(z), want)
 			}
 			bd.zstd[[2]int{bsz, dsz}] = append(z, skippable(want-len(z))...)
+		}
+	}
+	// multi-frame zstd bodies: the decoded payload is cut into 2..4 pieces, each its
+	// own frame (RFC 8878 3.1: frames may be concatenated); every single frame is far
+	// within the cap, only the sum is at cap-1 / cap / cap+1.
+	bd.multi = map[string][]byte{}
+	for _, fr := range []string{"multi_fcs", "multi_nofcs", "multi_mixed"} {
+		for _, dsz := range []int{-1, 0, 1} {
+			dec := pad(base, capD+int64(dsz))
+			k := 2 + rng.Intn(3)
+			cuts := []int{0}
+			for i := 1; i < k; i++ {
+				cuts = append(cuts, i*len(dec)/k+rng.Intn(16))
+			}
+			if rng.Intn(3) == 0 {
+				cuts[k-1] = len(dec) - 2 - rng.Intn(8) // a tiny last frame tips the sum over
+			}
+			cuts = append(cuts, len(dec))
+			var body []byte
+			for i := 0; i < k; i++ {
+				chunk := dec[cuts[i]:cuts[i+1]]
+				declare := fr == "multi_fcs" || (fr == "multi_mixed" && i == 0)
+				frame, err := zstdFrame(chunk, declare)
+				if err != nil {
+					return nil, err
+				}
+				body = append(body, frame...)
+			}
+			want := int(capF) - 1
+			if want-len(body) < 8 {
+				return nil, fmt.Errorf("multi-frame payload (%d) too close to the cap (%d) to pad", len(body), want)
+			}
+			bd.multi[fmt.Sprintf("%s/%d", fr, dsz)] = append(body, skippable(want-len(body))...)
 		}
 	}
 	s.bd, s.mr, s.rt = bd, mr, rt
@@ -1000,7 +1034,16 @@ func (s *stepper) originAnswer(st replay.Step) (replay.Obs, error) {
 		enc, cl := replay.Str(st.Args, "enc"), replay.Bool(st.Args, "cl")
 		bsz, dsz := replay.Int(st.Args, "bsz"), replay.Int(st.Args, "dsz")
 		var body []byte
-		if enc == "zstd" {
+		fr := replay.Str(st.Args, "fr")
+		if enc == "zstd" && fr != "" && fr != "one" {
+			if bsz != -1 {
+				return nil, fmt.Errorf("multi-frame bodies exist only at encoded size cap-1")
+			}
+			body = s.bd.multi[fmt.Sprintf("%s/%d", fr, dsz)]
+			if body == nil {
+				return nil, fmt.Errorf("unknown framing %q", fr)
+			}
+		} else if enc == "zstd" {
 			body = s.bd.zstd[[2]int{bsz, dsz}]
 		} else {
 			body = s.bd.plain[bsz]
